@@ -245,6 +245,16 @@ def _classify(v, w, out):
                 out.add("dict-as-list-of-pairs")
                 out.update(sub)
                 return
+    # a dataclass hashes like the dict {field: [value]} (field hashes are hashed once more, as a
+    # one-element list would be)
+    for a, b in ((v, w), (w, v)):
+        if dataclasses.is_dataclass(a) and not isinstance(a, type) and isinstance(b, dict) and not dataclasses.is_dataclass(b):
+            fa = [f.name for f in dataclasses.fields(a)]
+            if fa == list(b.keys()) and all(isinstance(x, (list, tuple)) and len(x) == 1 for x in b.values()):
+                out.add("dataclass-as-dict-of-singleton-lists")
+                for n in fa:
+                    _classify(getattr(a, n), b[n][0], out)
+                return
     # two dataclasses of different types with the same field names
     if (
         dataclasses.is_dataclass(v)
